@@ -37,6 +37,47 @@ fn exe_writable_segments() -> Vec<(usize, usize)> {
     segs
 }
 
+unsafe extern "C" {
+    fn fork() -> i32;
+    fn waitpid(pid: i32, status: *mut i32, options: i32) -> i32;
+    fn mprotect(addr: *mut core::ffi::c_void, len: usize, prot: i32) -> i32;
+    fn _exit(code: i32) -> !;
+}
+
+/// Run `f` in a forked child with the executable's writable data mapped READ-ONLY: any store to static storage –
+/// even a transient one that is undone afterwards – kills the child with SIGSEGV.
+/// Ok(true): no write; Ok(false): the child was killed by a signal; Err: could not be set up (skipped).
+fn run_write_protected(segs: &[(usize, usize)], f: impl FnOnce()) -> Result<bool, String> {
+    unsafe {
+        let pid = fork();
+        if pid < 0 {
+            return Err("fork failed".into());
+        }
+        if pid == 0 {
+            for &(a, b) in segs {
+                if mprotect(a as *mut _, b - a, 1 /* PROT_READ */) != 0 {
+                    _exit(77);
+                }
+            }
+            f();
+            _exit(0);
+        }
+        let mut status = 0i32;
+        if waitpid(pid, &mut status, 0) < 0 {
+            return Err("waitpid failed".into());
+        }
+        let exited = status & 0x7f == 0;
+        let code = (status >> 8) & 0xff;
+        if exited && code == 0 {
+            Ok(true)
+        } else if exited && code == 77 {
+            Err("mprotect refused".into())
+        } else {
+            Ok(false)
+        }
+    }
+}
+
 fn snapshot(segs: &[(usize, usize)]) -> Vec<u8> {
     let mut v = Vec::new();
     for &(a, b) in segs {
@@ -115,6 +156,14 @@ pub fn check_subject(s: &dyn Subject) -> Result<usize, (String, String)> {
             }
             let cnt = (0..before.len()).filter(|&i| before[i] != after[i]).count();
             return Err(("no static storage is written by encrypt/decrypt/clone calls".into(), format!("{cnt} byte(s) of the executable's writable data changed, first at address {addr:#x}: {} -> {}", hex(&before[i..(i + 8).min(before.len())]), hex(&after[i..(i + 8).min(after.len())]))));
+        }
+        // transient writes: the same operations with static storage mapped read-only (in a forked child)
+        match run_write_protected(&segs, || ops(inst.as_ref(), caps, bs, 134)) {
+            Ok(true) | Err(_) => {}
+            Ok(false) => {
+                return Err(("no static storage is written by encrypt/decrypt/clone calls (stores fault when .data/.bss are mapped read-only)".into(),
+                            "the operations were killed by a signal when the executable's writable data was mapped read-only: a call on &self stores to static storage".into()));
+            }
         }
         Ok(before.len() + total)
     })
